@@ -50,6 +50,7 @@ def plan(tier, seed):
     heavy = [{'cls': 'incompressible', 'delta': d} for d in (-2, -1, 0, 1, 2)]
     heavy += [{'cls': 'near_compressed', 'target': t} for t in ((-400, 0, 400) if tier == 'quick' else (-900, -300, -100, 0, 100, 300, 900))]
     heavy += [{'cls': 'oversize', 'n': n} for n in ((LIMIT + 65 + 900, 20000) if tier == 'quick' else (LIMIT + 65 + 900, 20000, 30000, 66000, 70000))]
+    heavy += [{'cls': 'oversize', 'n': 21000, 'entry': 'build', 'dest_exists': False}, {'cls': 'oversize', 'n': 24000, 'entry': 'build', 'dest_exists': True}]
     heavy += [{'cls': 'repetitive_big', 'n': n} for n in ((20000,) if tier == 'quick' else (20000, 40000, 65535))]
     if tier == 'thorough':
         heavy = heavy + [dict(h) for h in heavy if h['cls'] in ('incompressible', 'near_compressed')]
@@ -86,6 +87,10 @@ def make_code(rng, c):
     if cls == 'incompressible':
         return carts.incompressible(rng, LIMIT + c['delta'])
     if cls == 'oversize':
+        if c.get('entry') == 'build':
+            # the bulk is a later comment (not one of the two header comments): the code as written cannot fit, whatever a
+            # transformation nobody asked for could make of it
+            return b'-- title\n-- author\nx=1\n' + carts.incompressible(rng, c['n']) + b'\ny=2\n'
         return carts.incompressible(rng, c['n'])
     if cls == 'near_compressed':
         # random lower-case words: mostly literals, some short matches; tune length with the reference encoder
@@ -230,6 +235,22 @@ def run_case(ctx, rng, c, workdir):
             with open(out, 'rb') as fh:
                 data = fh.read()
             os.remove(src)
+        elif entry == 'build':
+            # `p8tool build cart.p8.png --lua src.p8`: the refusal has to hold on this route too (driven with code that cannot fit)
+            from pico8 import tool
+            src = os.path.join(workdir, 'buildsrc%d.p8' % ctx.evaluations)
+            with open(src, 'wb') as fh:
+                fh.write(rc.write_p8(regions, code, version=version))
+            listing_before = sorted(os.listdir(workdir))
+            try:
+                rcode = tool.main([ambient.vflag(), 'build', dest, '--lua', src])
+            except SystemExit as e:
+                rcode = e.code or 1
+            os.remove(src) if os.path.exists(src) else None
+            if rcode:
+                raise RuntimeError('p8tool build returned %r' % rcode)
+            with open(dest, 'rb') as fh:
+                data = fh.read()
         elif entry == 'convert':
             # .p8 -> .p8.png through the file API
             src = os.path.join(workdir, 'src%d.p8' % ctx.evaluations)
@@ -261,6 +282,8 @@ def run_case(ctx, rng, c, workdir):
                           case, key=classify(code, version, 'raised', err))
         else:
             ctx.feature('refused_oversize')
+            if entry == 'build':
+                ctx.feature('refused_oversize_through_build')
         return
 
     # success path
@@ -412,6 +435,8 @@ def gates(m, tier):
             missed.append('%s never generated' % k)
     if f.get('stored_raw', 0) < 10 or f.get('stored_compressed', 0) < 10:
         missed.append('storage branches raw=%d compressed=%d (<10)' % (f.get('stored_raw', 0), f.get('stored_compressed', 0)))
+    if f.get('refused_oversize_through_build', 0) < 2:
+        missed.append('oversize code through `p8tool build`: %d' % f.get('refused_oversize_through_build', 0))
     if f.get('refused_oversize', 0) < 1:
         missed.append('no oversize cart was refused')
     if mon.get('png_files_validated', 0) < 30 or mon.get('own_reads_compared', 0) < 30:
